@@ -1,10 +1,226 @@
-(* C07 -- placeholder while the harness is brought up; replaced by the theorems of stage B. *)
-From Coq Require Import ZArith List.
-Require Import Rig.Generated.GenMemOps Rig.Model.Base Rig.Model.Machine Rig.Model.MemOps.
+(* C07 -- Remote memory reads and writes are byte-exact for any address and length.
+
+   Theorems only; each is closed by `exact` of a lemma of Proofs/MemOps*.v.  The model (Model/MemOps.v on
+   Model/Machine.v) takes every piece of loop arithmetic -- conditions, block sizes, chunk addresses, data-type
+   keys, command arguments, result-buffer slices, updates, the struct / per-core address expressions, the
+   branch condition of fill, the receive length -- from Generated/GenMemOps.v, so these theorems are
+   re-checked against the current text of scp_connection.py / machine_controller.py and the live
+   address_length_dtype table and sark.struct on every run.
+
+   Reading the statements:
+     mk_env buffer nbr   the machine advertises `buffer` data bytes, nbr is its topology;
+     order               how a burst was actually executed / completed: any list that [covers] the chunk list
+                         (window > 1, lost / delayed / duplicated replies permute and repeat; C06 guarantees
+                         that each callback gets a reply to its own command);
+     mem_range (M c) a n the bytes stored at [a, a+n) of chip c;
+     stored_exactly M M' c a data   M' has exactly `data` at [a, a+|data|) of chip c and equals M at every
+                         other byte of every chip;
+     trace_ok buffer tr  every command sent is within the buffer and uses a word / half-word unit only for
+                         a so aligned address and length.
+   Guards: 0 <= address, address + length <= 2^32 (the 32-bit address space), 1 <= buffer < 2^32 (4 <= buffer for
+   the link functions: below that they do not terminate, C07_guards_needed), word alignment for the link
+   functions (otherwise the documented ValueError: the four C07_link_..._misaligned_... theorems). *)
+From Coq Require Import ZArith List Bool String.
+Require Import Rig.Generated.GenMemOps Rig.Generated.GenSCP Rig.Model.Base Rig.Model.Machine Rig.Model.MemOps
+  Rig.Spec.MemOps Rig.Proofs.MemOpsArith Rig.Proofs.MemOps Rig.Proofs.MemOpsChunks Rig.Proofs.MemOpsExact
+  Rig.Proofs.MemOpsTop Rig.Proofs.MemOpsFill Rig.Proofs.MemOpsLink Rig.Proofs.MemOpsExamples.
 Import ListNotations.
 Open Scope Z_scope.
 
-Example C07_model_evaluates :
-  exists tr out M, run_op (mk_env 16 (torus_nbr 8 8)) (pattern_machine 3 []) (1, 2) (OpRead 0 1001 37) = Ok (tr, out, M)
-                   /\ length tr = 3%nat.
-Proof. vm_compute. eauto. Qed.
+(* ---- the data-type table: all 16 entries name a unit that divides both address and length *)
+Theorem C07_dtype_table :
+  forall a n, exists d u, dtype_lookup (a mod 4, n mod 4) = Ok d /\ unit_of d = Some u /\
+                          a mod u = 0 /\ n mod u = 0 /\ (u = 1 \/ u = 2 \/ u = 4).
+Proof. exact dtype_key_ok. Qed.
+
+(* ---- the chunk lists tile the request (contiguous, 1..buffer bytes each, slices partition [0, length)) *)
+Theorem C07_read_chunks_tile :
+  forall address length buffer, 1 <= buffer -> 0 <= length ->
+    exists cs, read_chunks address length buffer = Ok cs /\ read_tiles cs address buffer 0 length.
+Proof. exact read_chunks_tiles. Qed.
+
+Theorem C07_write_chunks_tile :
+  forall address buffer data, 1 <= buffer ->
+    exists cs, write_chunks address buffer data = Ok cs /\ write_tiles cs address buffer data 0.
+Proof. exact write_chunks_tiles. Qed.
+
+(* ---- reads are exact, whatever the order in which the replies complete *)
+Theorem C07_read_exact :
+  forall buffer nbr M c core address length (order : list rchunk -> list rchunk),
+    0 <= address -> 0 <= length -> address + length <= 2 ^ 32 -> 1 <= buffer < 2 ^ 32 ->
+    (forall cs, covers cs (order cs)) ->
+    exists tr, sc_read_order (mk_env buffer nbr) M c core address length order =
+                 Ok (tr, mem_range (M c) address length) /\
+               trace_ok buffer tr /\ Forall (fun r => is_read_cmd (rq_cmd r)) tr /\
+               Forall (fun r => rq_chip r = c /\ rq_core r = core) tr.
+Proof. exact sc_read_order_exact. Qed.
+
+(* ... and read commands, executed any number of times in any order, leave every byte of the machine alone *)
+Theorem C07_reads_change_nothing :
+  forall buffer nbr rs M, Forall (fun r => is_read_cmd (rq_cmd r)) rs -> exec_all buffer nbr M rs = M.
+Proof. exact exec_all_reads. Qed.
+
+(* ---- writes leave exactly the data at exactly the addresses, for every order / repetition of the commands *)
+Theorem C07_write_exact :
+  forall buffer nbr M c core address data (order : list call -> list call),
+    0 <= address -> address + zlen data <= 2 ^ 32 -> 1 <= buffer < 2 ^ 32 ->
+    (forall cs, covers cs (order cs)) ->
+    exists tr M', sc_write_order (mk_env buffer nbr) M c core address data order = Ok (tr, M') /\
+                  stored_exactly M M' c address data /\ trace_ok buffer tr /\
+                  Forall (fun r => rq_chip r = c) tr.
+Proof. exact sc_write_order_exact. Qed.
+
+(* ---- struct fields: address = struct base + field offset (every field of the live sark.struct `sv`) *)
+Theorem C07_read_struct_exact :
+  forall buffer nbr M c core name off n,
+    1 <= buffer < 2 ^ 32 -> field_find name sv_fields = Some (off, n) ->
+    exists tr, mc_read_struct (mk_env buffer nbr) M c core name =
+                 Ok (tr, mem_range (M c) (sv_struct_base + off) n) /\
+               trace_ok buffer tr /\ Forall (fun r => is_read_cmd (rq_cmd r)) tr /\
+               Forall (fun r => rq_chip r = c /\ rq_core r = core) tr.
+Proof. exact mc_read_struct_exact. Qed.
+
+Theorem C07_write_struct_exact :
+  forall buffer nbr M c core name off n data,
+    1 <= buffer < 2 ^ 32 -> field_find name sv_fields = Some (off, n) -> zlen data = n ->
+    exists tr M', mc_write_struct (mk_env buffer nbr) M c core name data = Ok (tr, M') /\
+                  stored_exactly M M' c (sv_struct_base + off) data /\ trace_ok buffer tr /\
+                  Forall (fun r => rq_chip r = c) tr.
+Proof. exact mc_write_struct_exact. Qed.
+
+(* ---- per-core fields: address = word stored in sv.vcpu_base + block size * core + field offset *)
+Theorem C07_read_vcpu_exact :
+  forall buffer nbr M c p name off n,
+    1 <= buffer < 2 ^ 32 -> field_find name vcpu_fields = Some (off, n) ->
+    0 <= vcpu_addr M c p off -> vcpu_addr M c p off + n <= 2 ^ 32 ->
+    exists tr, mc_read_vcpu (mk_env buffer nbr) M c p name =
+                 Ok (tr, mem_range (M c) (vcpu_addr M c p off) n) /\
+               trace_ok buffer tr /\ Forall (fun r => is_read_cmd (rq_cmd r)) tr /\
+               Forall (fun r => rq_chip r = c) tr.
+Proof. exact mc_read_vcpu_exact. Qed.
+
+Theorem C07_write_vcpu_exact :
+  forall buffer nbr M c p name off n data,
+    1 <= buffer < 2 ^ 32 -> field_find name vcpu_fields = Some (off, n) -> zlen data = n ->
+    0 <= vcpu_addr M c p off -> vcpu_addr M c p off + n <= 2 ^ 32 ->
+    exists tr M', mc_write_vcpu (mk_env buffer nbr) M c p name data = Ok (tr, M') /\
+                  stored_exactly M M' c (vcpu_addr M c p off) data /\ trace_ok buffer tr /\
+                  Forall (fun r => rq_chip r = c) tr.
+Proof. exact mc_write_vcpu_exact. Qed.
+
+(* ---- fill, both branches: `size` copies of the byte (unaligned: by write) or size/4 copies of the
+        little-endian word (aligned: one FILL command) *)
+Theorem C07_fill_exact :
+  forall buffer nbr M c core address data size,
+    1 <= buffer < 2 ^ 32 -> 0 <= address < 2 ^ 32 -> 0 <= size < 2 ^ 32 -> address + size <= 2 ^ 32 ->
+    (fill_uses_write address size = true -> 0 <= data <= 255) ->
+    (fill_uses_write address size = false -> 0 <= data < 2 ^ 32) ->
+    exists tr M', mc_fill (mk_env buffer nbr) M c core address data size = Ok (tr, M') /\
+                  stored_exactly M M' c address (fill_bytes address data size) /\ trace_ok buffer tr /\
+                  Forall (fun r => rq_chip r = c) tr.
+Proof. exact mc_fill_exact. Qed.
+
+(* ---- across a link: whole-word chunks on the neighbouring chip, under buffer >= 4 *)
+Theorem C07_read_link_exact :
+  forall buffer nbr M c address length link,
+    4 <= buffer < 2 ^ 32 -> 0 <= address -> address mod 4 = 0 -> 0 <= length -> length mod 4 = 0 ->
+    address + length <= 2 ^ 32 -> 0 <= link < 2 ^ 32 ->
+    exists tr, mc_read_link (mk_env buffer nbr) M c address length link =
+                 Ok (tr, mem_range (M (nbr c link)) address length) /\
+               trace_ok buffer tr /\ Forall (fun r => is_read_cmd (rq_cmd r)) tr /\
+               Forall (fun r => rq_chip r = c) tr.
+Proof. exact mc_read_link_exact. Qed.
+
+Theorem C07_write_link_exact :
+  forall buffer nbr M c address link data (order : list (Z * call) -> list (Z * call)),
+    4 <= buffer < 2 ^ 32 -> 0 <= address -> address mod 4 = 0 -> zlen data mod 4 = 0 ->
+    address + zlen data <= 2 ^ 32 -> 0 <= link < 2 ^ 32 ->
+    (forall cs, covers cs (order cs)) ->
+    exists tr M', mc_write_link_order (mk_env buffer nbr) M c address link data order = Ok (tr, M') /\
+                  stored_exactly M M' (nbr c link) address data /\ trace_ok buffer tr /\
+                  Forall (fun r => rq_chip r = c) tr.
+Proof. exact mc_write_link_order_exact. Qed.
+
+(* the documented errors of the link functions (ValueError: address, then length) *)
+Theorem C07_link_read_misaligned_address :
+  forall E M c address length link, address mod 4 <> 0 -> mc_read_link E M c address length link = Failed 0.
+Proof. exact mc_read_link_misaligned_address. Qed.
+
+Theorem C07_link_read_misaligned_length :
+  forall E M c address length link,
+    address mod 4 = 0 -> length mod 4 <> 0 -> mc_read_link E M c address length link = Failed 1.
+Proof. exact mc_read_link_misaligned_length. Qed.
+
+Theorem C07_link_write_misaligned_address :
+  forall E M c address link data, address mod 4 <> 0 -> mc_write_link E M c address link data = Failed 0.
+Proof. exact mc_write_link_misaligned_address. Qed.
+
+Theorem C07_link_write_misaligned_length :
+  forall E M c address link data,
+    address mod 4 = 0 -> zlen data mod 4 <> 0 -> mc_write_link E M c address link data = Failed 1.
+Proof. exact mc_write_link_misaligned_length. Qed.
+
+(* ---- the receive length of send_scp_burst (after fix dbd83a4) holds every reply the buffer size allows:
+        the guard `chunk + header <= receive length` is a lemma, not a hypothesis of the theorems above *)
+Theorem C07_receive_length_fits :
+  forall buffer s, 0 <= buffer -> s <= buffer -> s + read_reply_data_offset <= receive_length buffer.
+Proof. exact receive_fits. Qed.
+
+(* the code as found computed 2^ceil(log2(buffer + 8)): a full read chunk's reply did not fit for buffer sizes
+   just below a power of two, and the read raised (replayed on the real code: finding recv-length-truncates-reply) *)
+Theorem C07_recv_length_truncates_orig_refuted :
+  exists buffer M c core address length cs,
+    1 <= buffer < 2 ^ 32 /\ 0 <= address /\ 0 <= length /\ address + length <= 2 ^ 32 /\
+    read_chunks address length buffer = Ok cs /\
+    read_run {| e_buffer := buffer; e_rl := receive_length_orig buffer; e_nbr := ex_nbr |} M c core cs
+             (repeat 0 (Z.to_nat length)) = OtherError.
+Proof. exact ex_recv_length_orig. Qed.
+
+(* ---- non-vacuity, necessity of the guards, error branches *)
+Example C07_read_hypotheses_satisfiable :
+  1 <= 16 < 2 ^ 32 /\ 0 <= 1001 /\ 0 <= 37 /\ 1001 + 37 <= 2 ^ 32 /\
+  match sc_read (mk_env 16 ex_nbr) ex_M (1, 2) 0 1001 37 with
+  | Ok (tr, out) => Some (List.length tr, out)
+  | _ => None
+  end = Some (3%nat, mem_range (ex_M (1, 2)) 1001 37).
+Proof. exact ex_read_instance. Qed.
+
+Example C07_write_hypotheses_satisfiable :
+  match sc_write (mk_env 16 ex_nbr) ex_M (1, 2) 0 1000 (pattern_data 1 40) with
+  | Ok (tr, M') =>
+      Some (map (fun r => match rq_cmd r with CWrite a n t _ => (a, n, t) | _ => (0, 0, 0) end) tr,
+            mem_range (M' (1, 2)) 999 42)
+  | _ => None
+  end =
+  Some ([(1000, 16, DataType_word); (1016, 16, DataType_word); (1032, 8, DataType_word)],
+        ex_M (1, 2) 999 :: pattern_data 1 40 ++ [ex_M (1, 2) 1040]).
+Proof. exact ex_write_instance. Qed.
+
+Example C07_field_fill_link_instances :
+  field_find "vcpu_base" sv_fields = Some (sv_vcpu_base_offset, 4) /\
+  field_find "app_name" vcpu_fields = Some (72, 16) /\
+  fill_uses_write 4097 3 = true /\ fill_uses_write 4096 8 = false /\
+  match mc_fill (mk_env 16 ex_nbr) ex_M (1, 2) 0 4096 287454020 8 with
+  | Ok (tr, M') => Some (List.length tr, mem_range (M' (1, 2)) 4096 8)
+  | _ => None
+  end = Some (1%nat, [68; 51; 34; 17; 68; 51; 34; 17]) /\
+  match mc_read_link (mk_env 18 ex_nbr) ex_M (1, 2) 4096 40 1 with
+  | Ok (tr, out) => Some (List.length tr, out)
+  | _ => None
+  end = Some (3%nat, mem_range (ex_M (2, 3)) 4096 40).
+Proof. exact ex_field_instances. Qed.
+
+Example C07_guards_needed :
+  (mc_read_link (mk_env 3 ex_nbr) ex_M (1, 2) 4096 8 0 = OutOfFuel /\
+   mc_write_link (mk_env 3 ex_nbr) ex_M (1, 2) 4096 0 (pattern_data 1 4) = OutOfFuel) /\
+  (sc_read (mk_env 0 ex_nbr) ex_M (1, 2) 0 4096 1 = OutOfFuel /\
+   sc_write (mk_env 0 ex_nbr) ex_M (1, 2) 0 4096 [7] = OutOfFuel).
+Proof. exact (conj ex_link_guard_needed ex_buffer_guard_needed). Qed.
+
+Example C07_error_branches :
+  sc_read (mk_env 16 ex_nbr) ex_M (1, 2) 0 4096 (-1) = OtherError /\
+  sc_read (mk_env 16 ex_nbr) ex_M (1, 2) 0 (2 ^ 32) 4 = OtherError /\
+  sc_write (mk_env 16 ex_nbr) ex_M (1, 2) 0 (-1) [1; 2; 3] = OtherError /\
+  mc_fill (mk_env 16 ex_nbr) ex_M (1, 2) 0 4097 256 3 = OtherError /\
+  mc_read_struct (mk_env 16 ex_nbr) ex_M (1, 2) 0 "no_such_field" = OtherError.
+Proof. exact ex_error_branches. Qed.
